@@ -231,6 +231,7 @@ def search(ctx, broken):
     if not [v for v in sub.violations if "@" in v["key"]]:
         cases = G.run_jobs(jobs_for(sub, deep=True), int(os.environ.get("VERIF_PROCS", "6")))
         evaluate(sub, cases, "search-deep")
+    K.disagreement_violations(ctx, sub, "c35")
     ctx.violations.extend(sub.violations)
 
 
